@@ -293,13 +293,13 @@ def _parse_block(lines):
                 opts["keep_attrs"] = True
             elif kw == "nocanary":
                 opts["nocanary"] = True
-            elif kw in ("lift", "lift-block"):
+            elif kw in ("lift", "lift-block", "lift-closure"):
                 m = re.match(r"^(\w+)\s+/(.*)/\s*$", rest)
                 if not m:
                     raise UnitError("bad lift: " + ln)
                 opts.setdefault("lifts", {})[m.group(1)] = {"pat": m.group(2), "call": None, "head": None,
                                                            "mutrefs": [], "contract": [], "serves": None,
-                                                           "block": kw == "lift-block", "rw": []}
+                                                           "block": kw == "lift-block", "closure_arg": kw == "lift-closure", "rw": []}
             elif kw in ("lift-rw", "lift-rw?"):
                 m = re.match(r"^(\w+)\s+(\S+)\s+/(.*)/\s+=>\s?(.*)$", rest)
                 if not m:
@@ -573,6 +573,9 @@ def build_fn(repo, file, path, opts, as_item=False):
         bc = match_brace(bm0, bo)
         if L.get("block"):
             po = bo                                   # a plain block expression `{ .. }`
+            end = bc + 1
+        elif L.get("closure_arg"):
+            po = mm.start()                           # a closure literal passed as an argument
             end = bc + 1
         else:
             po = mm.start() + seg.index("(")          # the `(` of `(|| ...`
